@@ -5,7 +5,7 @@ from lib.common import run_tasks, finish
 
 def tasks(tier):
     T = []
-    types = [(8, 4), (6, 2)] if tier == 'quick' else [(4, 2), (8, 4), (9, 3), (8, 2), (10, 5)]
+    types = [(8, 4), (6, 2)] if tier == 'quick' else [(4, 2), (8, 4), (9, 3), (8, 2), (7, 3)]
     def vi(name, params, func, bound, k=2, np_=False):
         T.append(('sx.tasks', 'run_instance', ('sx.fxp', name, params, dict(k=k, no_prss=np_), func, bound)))
     for l, f in types:
